@@ -8,6 +8,7 @@ import re
 import common
 import pipe_common
 
+LUT_RE = re.compile(r"op (\d+) LUT: byte (\d+) of region (\d+): expected tensor 0 delta (-?\d+), found")
 STALE_RE = re.compile(r"op (\d+) (IFM2?): byte (\d+) of region (\d+): expected tensor (\d+) delta (-?\d+), found (?:tensor (\d+) delta (-?\d+)|undefined)")
 
 
@@ -21,6 +22,16 @@ def classify_tagged(msg, metas):
     nor sufficient."""
     import c10_lib
 
+    ml = LUT_RE.search(msg)
+    if ml and int(ml.group(1)) < len(metas):
+        # lut.optimize_high_level_cmd_stream programs (address - window start) / 256 as table index when it places a table,
+        # but lut.get_lut_index(...) = offset / table size when an equal table is found present again: for the 1 KiB
+        # exponent table of an 8-bit SOFTMAX in the upper half of the window that is index 1 instead of 4, and the
+        # second SOFTMAX looks up in whatever lies 256 bytes into the window
+        meta = metas[int(ml.group(1))]
+        if meta.get("lut_bytes", 256) > 256 and meta.get("lut_offset", 0) > 0 and \
+                meta.get("lut_index") == meta["lut_offset"] // meta["lut_bytes"] != meta["lut_offset"] // 256:
+            return "lut-index-of-reused-wide-table-divided-by-table-size"
     m = STALE_RE.search(msg)
     if not m:
         return None
@@ -39,6 +50,25 @@ def classify_tagged(msg, metas):
         tall = meta.get("hw_ifm_h", 0) > meta.get("box_ifm_h", 1 << 30) and meta.get("ifm_height0") == meta.get("box_ifm_h")
         if wide or tall:
             return "ifm-box-smaller-than-hardware-read-extent"
+    return None
+
+
+def classify_source(o, msg):
+    """Known-finding key for a C03 rejection that is explained by a construct of the source network (tags of
+    netgen_ext.source_tags) together with the shape of the rejection, or None.
+    * npu-box-batch>1: an accelerated operation whose 4-D box has batch > 1. PACK of rank-3 operands whose first dimension
+      is > 1 along an inner axis gives a rank-4 result with batch > 1 (constraint_batch_size looks at the operands only);
+      SPLIT / SPLIT_V / UNPACK / STRIDED_SLICE / SLICE are exempt from the batch-size constraint, so a rank-4 operand with
+      batch > 1 cut along an inner axis is read in boxes with batch > 1. The NPU operations program height / width / depth
+      of batch 0 only, so the rest of the result is never written: a later reader finds undefined or older bytes.
+    * STRIDED_SLICE with new_axis_mask: TFLite indexes begin/end/strides by *specification* position (the entry at a new-axis
+      position is ignored); tflite_model_semantic._get_slice_offsets indexes them by *input* dimension, so with a new axis
+      that is not the last entry the slice read by the consumer is a different one."""
+    tags = o.get("src_tags") or []
+    if "npu-box-batch>1" in tags and re.search(r"(step \d+ CPU \S+|op \d+ IFM2?): byte \d+ of region \d+: expected tensor", msg):
+        return "accelerated-box-with-batch>1-only-batch-0-processed"
+    if "strided-slice-new-axis-not-trailing" in tags and re.search(r"op \d+ IFM: byte", msg):
+        return "strided-slice-new-axis-mask-begin-end-indexed-by-input-dimension"
     return None
 
 
@@ -65,10 +95,12 @@ def parse_answer(ans):
 
 def run(ck, pid, n_quick, n_thorough, profiles, want=("stream",)):
     n = n_thorough if ck.thorough else n_quick
-    outs = pipe_common.run_corpus(ck, n, profiles=profiles, want=want)
+    outs = pipe_common.run_corpus(ck, n, profiles=profiles, want=want, sweep=True)      # pattern sweep first (harness/sweep.py)
     lines, owners = [], []
     for o in outs:
         ck.count("status_" + str(o.get("status", "harness-exception")))
+        if str(o.get("profile", "")).startswith("sweep:"):
+            ck.count("sweep_" + o["profile"].split(":", 1)[1])
         if "harness_exception" in o:
             raise common.InfraError("pipeline worker failed:\n" + o["harness_exception"])
         if o.get("harness_errors"):
